@@ -34,7 +34,11 @@ func mangle(s string, set string) string {
 
 const pathEsc = " \t\n\\"
 const srcEsc = " \t\n\\#"
-const optEsc = " \t\n\\,="
+
+// seq_show_option(m, name, value): the VALUE is escaped with ", \t\n\\" only -- an '=' inside
+// a value (a directory called cake=17.1) is written as it is --, the NAME additionally with '='.
+const optEsc = " \t\n\\,"
+const optNameEsc = " \t\n\\,="
 
 func (m kmount) render() string {
 	f := []string{m.ID, m.Parent, m.Dev, mangle(m.Root, pathEsc), mangle(m.Mp, pathEsc), m.Opts}
@@ -42,9 +46,9 @@ func (m kmount) render() string {
 	so := []string{}
 	for _, kv := range m.Super {
 		if kv[1] == noVal {
-			so = append(so, kv[0])
+			so = append(so, mangle(kv[0], optNameEsc))
 		} else {
-			so = append(so, kv[0]+"="+mangle(kv[1], optEsc))
+			so = append(so, mangle(kv[0], optNameEsc)+"="+mangle(kv[1], optEsc))
 		}
 	}
 	f = append(f, "-", m.Fstype, mangle(m.Source, srcEsc), strings.Join(so, ","))
@@ -66,7 +70,33 @@ func (m kmount) json() map[string]interface{} {
 }
 
 var nastyNames = []string{"a", "b", "my base", "x\ty", "nl\nx", "back\\slash", "tr ", " lead", "a\\040b",
-	"q\\1", "é", "c,d", "k=v", "#h", "\\", "\\\\", "sp  sp", "1", "040", "end\\", "\xff\xfe", "a b\\134"}
+	"q\\1", "é", "c,d", "k=v", "#h", "\\", "\\\\", "sp  sp", "1", "040", "end\\", "\xff\xfe", "a b\\134",
+	"a=b", "k=v=w", "cake=17.1", "=", "=lead", "end=", "x =y,z", "lowerdir=/x", "e\\075q"}
+
+// names with a raw '=' for overlay directories: the kernel writes them as they are, so the
+// reader sees `lowerdir=/a=b/c` and must cut at the first '=' only
+var equalsNames = []string{"a=b", "k=v=w", "cake=17.1", "=", "==", "=lead", "end=", "x =y,z", "upperdir=/u",
+	"b\\=c", "p=q\tr"}
+
+// genOvlDir: a directory for lowerdir/upperdir/workdir; every other one has a component
+// (or several) containing '='
+func genOvlDir(g *Gen) string {
+	p := genKPath(g, 1)
+	if g.Chance(1, 2) {
+		e := equalsNames[g.Intn(len(equalsNames))]
+		switch g.Intn(4) {
+		case 0:
+			p = "/" + e + p
+		case 1:
+			p = p + "/" + e
+		case 2:
+			p = "/" + e
+		default:
+			p = p + "/" + e + "/" + g.Pick("build", "w", equalsNames[g.Intn(len(equalsNames))])
+		}
+	}
+	return p
+}
 
 func genKPath(g *Gen, depth int) string {
 	if depth == 0 && g.Chance(1, 6) {
@@ -127,8 +157,8 @@ func genTable(g *Gen) []kmount {
 		m.Fstype = g.Pick("ext4", "tmpfs", "proc", "devtmpfs", "sysfs", "overlay", "overlay", "btrfs", "fuse.x", "devpts")
 		m.Source = g.Pick("/dev/sda1", "none", "tmpfs", "overlay", "/dev/mapper/my vol", "sp ace", "#hash", "devtmpfs")
 		if m.Fstype == "overlay" {
-			keys := [][2]string{{"rw", noVal}, {"lowerdir", genKPath(g, 1)}, {"upperdir", genKPath(g, 1)},
-				{"workdir", genKPath(g, 1)}, {"redirect_dir", "on"}, {"index", "off"}, {"xino", "off"}}
+			keys := [][2]string{{"rw", noVal}, {"lowerdir", genOvlDir(g)}, {"upperdir", genOvlDir(g)},
+				{"workdir", genOvlDir(g)}, {"redirect_dir", "on"}, {"index", "off"}, {"xino", "off"}}
 			g.Shuffle(len(keys), func(a, b int) { keys[a], keys[b] = keys[b], keys[a] })
 			keys = keys[:3+g.Intn(len(keys)-2)]
 			m.Super = keys
@@ -220,6 +250,7 @@ func init() {
 			raw := nastyNames[g.Intn(len(nastyNames))] + g.From(" \\\t\n01237a/", g.Intn(6))
 			emit(Case{"op": "fs.unescape", "raw": hx(raw), "esc": hx(pathEsc), "s": hx(mangle(raw, pathEsc))})
 			emit(Case{"op": "fs.unescape", "raw": hx(raw), "esc": hx(optEsc), "s": hx(mangle(raw, optEsc))})
+			emit(Case{"op": "fs.unescape", "raw": hx(raw), "esc": hx(optNameEsc), "s": hx(mangle(raw, optNameEsc))})
 			emit(Case{"op": "fs.unescape", "s": hx(g.From("\\0123478 a", g.Intn(10)))})
 			tbl := genTable(g)
 			lines := make([]string, len(tbl))
